@@ -1825,6 +1825,10 @@ def writable_history_views(chk, pid):
             arr = e.base if hs else e.recv
             n += 1
             chk.site()
+            if hs:
+                chk.ob("C10.R4", is_inow(hs[1], guard=e.guard), fi.module, host, "write-index:%s:%d" % (series_name(hs[0]), e.line),
+                       "an in-place history write addresses exactly the current row (a None or stale index would overwrite other dates or fail)", where=e.where,
+                       expected="resolved inow", found=short(hs[1], 120))
             enabling = [w for w in S.events if w.kind == "write" and w.field == "writeable" and w.seq < e.seq and canon(w.value) == canon(sym.TRUE) and w.obj[0] == "attr" and w.obj[2] == "flags"
                         and canon(w.obj[1]) == canon(arr)]
             ok = bool(enabling)
